@@ -14,6 +14,136 @@ pub fn gen_cfg() -> GenCfg {
     }
 }
 
+// ---------------------------------------------------------------------------------------
+// a component typed by a fixed-type class field (`id MY-CLASS.&id`) is resolved by the linker,
+// which rebuilds the enclosing SEQUENCE / SET: the extension marker, the additions and the
+// groups must come out of that exactly as for the same type written with the field's type
+
+#[derive(Clone, Debug, serde::Serialize, serde::Deserialize)]
+struct ClsCase {
+    set: bool,
+    /// number of root components in front of the marker (the class field is root component `field_at`, or addition `field_at - n_root`)
+    n_root: usize,
+    n_add: usize,
+    /// group of two components after the k-th addition (SEQUENCE only), if any
+    group_after: Option<usize>,
+    field_at: usize,
+    implied: bool,
+}
+
+fn cls_text(c: &ClsCase, with_field: bool) -> String {
+    let fty = if with_field { "ZC-CLASS.&id" } else { "INTEGER" };
+    let comp = |k: usize| -> String {
+        if k == c.field_at {
+            format!("f{k} {fty}")
+        } else {
+            format!("f{k} {}", ["BOOLEAN", "NULL", "OCTET STRING", "INTEGER"][k % 4])
+        }
+    };
+    let mut parts: Vec<String> = (0..c.n_root).map(comp).collect();
+    parts.push("...".into());
+    for a in 0..c.n_add {
+        parts.push(format!("{} OPTIONAL", comp(c.n_root + a)));
+        if !c.set && c.group_after == Some(a) {
+            parts.push(format!("[[ g{a}a BOOLEAN, g{a}b NULL OPTIONAL ]]"));
+        }
+    }
+    format!("{} ::= {} {{ {} }}", if with_field { "With-Field" } else { "Plain" }, if c.set { "SET" } else { "SEQUENCE" }, parts.join(", "))
+}
+
+fn cls_module(c: &ClsCase) -> String {
+    format!(
+        "Cls-Mod DEFINITIONS AUTOMATIC TAGS{} ::= BEGIN\nZC-CLASS ::= CLASS {{ &id INTEGER UNIQUE, &Type }} WITH SYNTAX {{ ID &id TYPE &Type }}\n{}\n{}\nEND\n",
+        if c.implied { " EXTENSIBILITY IMPLIED" } else { "" },
+        cls_text(c, true),
+        cls_text(c, false)
+    )
+}
+
+fn cls_eval(c: &ClsCase) -> Result<Option<String>, String> {
+    use crate::comp::{self, Cfg, Outcome};
+    let out = match comp::compile_rasn1(&cls_module(c), &Cfg::default()) {
+        Outcome::Ok(o) if o.warnings.is_empty() => o,
+        Outcome::Ok(o) => return Err(format!("warnings: {}", o.warnings[0])),
+        Outcome::Err(e) => return Err(e),
+        Outcome::Panic(p) => return Err(format!("panic: {p}")),
+    };
+    let mods = crate::proj::project(&out.generated)?;
+    let m = mods.first().ok_or("no module")?;
+    let (Some(w), Some(p)) = (m.find_struct("WithField"), m.find_struct("Plain")) else { return Err("types not generated".into()) };
+    if w.attrs.non_exhaustive != p.attrs.non_exhaustive {
+        return Ok(Some(format!("With-Field: #[non_exhaustive] = {}, the same type with the field's type written out: {}", w.attrs.non_exhaustive, p.attrs.non_exhaustive)));
+    }
+    if w.fields.len() != p.fields.len() {
+        return Ok(Some(format!("With-Field has {} members, the same type with the field's type written out has {}", w.fields.len(), p.fields.len())));
+    }
+    for (wf, pf) in w.fields.iter().zip(p.fields.iter()) {
+        let marks = |f: &crate::proj::RField| {
+            let mut v: Vec<&str> = ["extension_addition", "extension_addition_group"].into_iter().filter(|k| f.attrs.flags.contains(*k)).collect();
+            if f.ty.starts_with("Option<") {
+                v.push("Option");
+            }
+            v
+        };
+        if wf.name != pf.name || marks(wf) != marks(pf) {
+            return Ok(Some(format!("member `{}` of With-Field is marked {:?}, member `{}` of the same type with the field's type written out {:?}", wf.name, marks(wf), pf.name, marks(pf))));
+        }
+    }
+    Ok(None)
+}
+
+fn classfield_leg(ctx: &mut Ctx, tier: Tier, seed: u64) {
+    use rayon::prelude::*;
+    let mut cases: Vec<ClsCase> = vec![];
+    for (_p, v) in crate::ev::replay_files("C05") {
+        if v["kind"] == "c05-classfield" {
+            if let Ok(c) = serde_json::from_value::<ClsCase>(v["case"].clone()) {
+                cases.push(c);
+            }
+        }
+    }
+    // small enough to enumerate: root 1..3, additions 0..3, group position, field position, SEQUENCE/SET, IMPLIED
+    for set in [false, true] {
+        for n_root in 1..=3usize {
+            for n_add in 0..=3usize {
+                for g in 0..=n_add {
+                    let group_after = if g < n_add && !set { Some(g) } else { None };
+                    if set && g > 0 {
+                        continue;
+                    }
+                    for field_at in 0..n_root + n_add {
+                        for implied in [false, true] {
+                            if implied && tier == Tier::Quick && (n_root + n_add + field_at) % 2 == 1 {
+                                continue;
+                            }
+                            cases.push(ClsCase { set, n_root, n_add, group_after, field_at, implied });
+                        }
+                    }
+                }
+            }
+        }
+    }
+    let _ = seed;
+    let results: Vec<(ClsCase, Result<Option<String>, String>)> = cases.into_par_iter().map(|c| { let r = cls_eval(&c); (c, r) }).collect();
+    let mut reported = 0;
+    for (c, r) in results {
+        match r {
+            Err(_) => ctx.class("classfield:skipped (rejected / not generated)"),
+            Ok(res) => {
+                ctx.case(&format!("classfield:{}", cls_module(&c)), c.n_add > 0);
+                ctx.class("leg:class-field-component-keeps-extension-marks");
+                if let Some(d) = res {
+                    ctx.class("fails:classfield");
+                    if reported < 3 {
+                        reported += 1;
+                        ctx.fail(crate::ev::Failure { finding: None, what: format!("extension marks change when a component is typed by a class field: {d}"), replay: serde_json::json!({"kind": "c05-classfield", "case": c, "sources": [{"name": "cls.asn", "text": cls_module(&c)}], "observed": d}) });
+                    }
+                }
+            }
+        }
+    }
+}
+
 pub fn run(tier: Tier, seed: u64, replay: Option<String>) -> i32 {
     let mut ctx = Ctx::new("C05", tier, seed);
     ctx.rule = "module sets from the §3 generator with extension markers on ~75% of SEQUENCE/SET/CHOICE/ENUMERATED (marker at any \
@@ -48,11 +178,29 @@ pub fn run(tier: Tier, seed: u64, replay: Option<String>) -> i32 {
         max_violations: 4,
         eval: &e,
     };
+    if let Some(p) = &replay {
+        let v: serde_json::Value = serde_json::from_str(&std::fs::read_to_string(p).unwrap_or_default()).unwrap_or_default();
+        if v["kind"] == "c05-classfield" {
+            if let Ok(c) = serde_json::from_value::<ClsCase>(v["case"].clone()) {
+                match cls_eval(&c) {
+                    Err(e) => ctx.inconclusive.push(e),
+                    Ok(res) => {
+                        ctx.case(&cls_module(&c), true);
+                        if let Some(d) = res {
+                            ctx.fail(crate::ev::Failure { finding: None, what: format!("extension marks change when a component is typed by a class field: {d}"), replay: v.clone() });
+                        }
+                    }
+                }
+            }
+            return ctx.finish();
+        }
+    }
     if let Some(p) = replay {
         let r = replay_generic(&mut ctx, &run, "c05", &p);
         let code = ctx.finish();
         return if r == 2 { 2 } else { code };
     }
     run_generic(&mut ctx, &run, "c05");
+    classfield_leg(&mut ctx, tier, seed);
     ctx.finish()
 }
